@@ -9,6 +9,9 @@ L5 (parse side): `fromCst` for the container fragment — a transliteration, bug
   * `expressions/set.py`         `AttributeSet.from_cst`, `binding_parser.parse_binding_sequence`
   * `expressions/binding.py`     `Binding.from_cst`
   * `expressions/primitive.py`, `identifier.py`, `float.py`, `path.py`  (leaf `from_cst`)
+  * `expressions/parenthesis.py` `Parenthesis.from_cst`
+  * `expressions/function/call.py` `FunctionCall.from_cst` (with `collect_comments_between_with_gap`,
+                                 `_collect_comment_trivia` of `trivia.py`)
 
 `Expr` has one constructor per Python class with the fields the fragment uses (`Binding` is an
 expression with `before`/`after` exactly as in Python). Everything the Python reads from node
@@ -39,6 +42,14 @@ inductive Expr where
   | set (values : List Expr) (multiline recursive : Bool) (inner before after : List Trivia)
   /-- `Binding(name, value, value_gap)` -/
   | binding (name : Text) (value : Expr) (valueGap : Text) (before after : List Trivia)
+  /-- `Parenthesis(value, leading_gap, trailing_gap, leading_blank_line, trailing_blank_line)` -/
+  | paren (value : Expr) (leadingGap trailingGap : Text) (leadingBlank trailingBlank : Bool)
+      (before after : List Trivia)
+  /-- `FunctionCall(name, argument, argument_gap, function_after)`. `recursive` is not a field:
+      `from_cst` sets it exactly when the argument node is a `rec { }`, whose expression is an
+      `AttributeSet(recursive=True)`, and for those `rebuild` writes no extra `rec`. `argument_gap` is
+      a `Text`: `from_cst` always sets it (the `None` branch of `rebuild` is for calls built by hand). -/
+  | app (name arg : Expr) (argGap : Text) (fnAfter : List Comment) (before after : List Trivia)
 
 /-- `NixSourceCode(expressions, trailing)` -/
 structure Src where
@@ -50,24 +61,32 @@ def Expr.before : Expr → List Trivia
   | .list _ _ _ b _ => b
   | .set _ _ _ _ b _ => b
   | .binding _ _ _ b _ => b
+  | .paren _ _ _ _ _ b _ => b
+  | .app _ _ _ _ b _ => b
 
 def Expr.after : Expr → List Trivia
   | .leaf _ _ _ a => a
   | .list _ _ _ _ a => a
   | .set _ _ _ _ _ a => a
   | .binding _ _ _ _ a => a
+  | .paren _ _ _ _ _ _ a => a
+  | .app _ _ _ _ _ a => a
 
 def Expr.setBefore : Expr → List Trivia → Expr
   | .leaf k t _ a, b => .leaf k t b a
   | .list v m i _ a, b => .list v m i b a
   | .set v m r i _ a, b => .set v m r i b a
   | .binding n v g _ a, b => .binding n v g b a
+  | .paren v lg tg lb tb _ a, b => .paren v lg tg lb tb b a
+  | .app n x g fa _ a, b => .app n x g fa b a
 
 def Expr.setAfter : Expr → List Trivia → Expr
   | .leaf k t b _, a => .leaf k t b a
   | .list v m i b _, a => .list v m i b a
   | .set v m r i b _, a => .set v m r i b a
   | .binding n v g b _, a => .binding n v g b a
+  | .paren v lg tg lb tb b _, a => .paren v lg tg lb tb b a
+  | .app n x g fa b _, a => .app n x g fa b a
 
 /-- `expr.after.extend(ts)` -/
 def Expr.addAfter (e : Expr) (ts : List Trivia) : Expr := e.setAfter (e.after ++ ts)
@@ -195,6 +214,51 @@ def emptyInner (items : List Expr) (inner : List Trivia) (between : Text) : List
     (if gapHasEmptyLineOffsets between then [.emptyLine] else [])
   else inner
 
+/-- the comments between the function and the argument of a call, split the way
+    `FunctionCall.from_cst` does: `inl` — those on the row the function ends on that do not touch it
+    (`start_byte > function_node.end_byte and start_point.row == function_node.end_point.row`), in
+    order; `rest` — the others, each with the source text between the end of the previous selected
+    node (the function, or the previous comment of `rest`) and its start (the text
+    `append_gap_between_offsets` scans: it may hold inline comments); `tail` — the text after the
+    last comment of `rest` up to the end of the last comment. -/
+structure AppSplit where
+  inl : List Text := []
+  rest : GC := []
+  tail : Text := []
+
+/-- `first`: no comment seen yet; `sameRow`: no line break since the function; `pend`: text since
+    the previous selected node -/
+def appSplit : GC → Bool → Bool → Text → AppSplit
+  | [], _, _, pend => { tail := pend }
+  | p :: cs, first, sameRow, pend =>
+    let sameRow' := sameRow && !containsNL p.1
+    if sameRow' && !(first && p.1.isEmpty) then
+      let r := appSplit cs false sameRow' (pend ++ p.1 ++ p.2)
+      { r with inl := p.2 :: r.inl }
+    else
+      let r := appSplit cs false sameRow' []
+      { r with rest := (pend ++ p.1, p.2) :: r.rest }
+
+/-- `before_argument`: `collect_comments_between_with_gap(node, comment_nodes, function_node,
+    argument_node, allow_inline=False)[0]` for the comments that are not inline — gap markers and
+    comments, then `empty_line` when a blank line separates the last comment from the argument -/
+def appBeforeArg (sp : AppSplit) (g : Text) : List Trivia :=
+  if sp.rest.isEmpty then []
+  else gcTrivia [] sp.rest ++ (if gapHasEmptyLineOffsets (sp.tail ++ g) then [.emptyLine] else [])
+
+/-- `FunctionCall.from_cst(node)` given the parsed function and argument. DEVIATION (kept explicit):
+    `FunctionCall.rebuild` renders the argument as
+    `argument.model_copy(update={"before": trim_leading_layout_trivia(argument.before)})` when
+    `layout_from_gap(argument_gap).on_newline`; the model applies that trim here, where the field is
+    written (same condition, same function; nothing reads `argument.before` in between), because the
+    structurally recursive renderer cannot recurse on a modified copy. -/
+def appFromCst (fe ae : Expr) (cs : GC) (g : Text) : Expr :=
+  let sp := appSplit cs true true []
+  let argGap := flattenGC cs ++ g                       -- gap_between(node, function_node, argument_node)
+  let bf := appBeforeArg sp g ++ ae.before
+  let bf := if (Layout.fromGap argGap).onNewline then trimLeadingLayoutTrivia bf else bf
+  .app fe (ae.setBefore bf) argGap (sp.inl.map fun t => mkComment t true) [] []
+
 mutual
 /-- `tree_sitter_node_to_expression(node)` on the fragment -/
 def Cst.parse : Cst → Except Err Expr
@@ -213,6 +277,25 @@ def Cst.parse : Cst → Except Err Expr
       let r := finishSeq st (some cg) (!its.isNil)
       .ok (.set r.1 (containsNL (Cst.flatten (.set isRec rg its cg))) isRec
             (emptyInner r.1 r.2 (its.flatten ++ cg)) [] [])
+  | .paren its cg =>
+    -- parse_delimited_sequence(node, content_nodes, …) without open/close token; `parse_item` raises
+    -- ValueError on a second expression, "contains no expression" without one (checked after the loop:
+    -- the grammar puts exactly one expression between the parentheses)
+    match its.parseSeq .paren {} with
+    | .error e => .error e
+    | .ok st =>
+      match (finishSeq st none (!its.isNil)).1 with
+      | [v] =>
+        .ok (.paren v its.preElem (its.postElem ++ cg)
+              (gapHasEmptyLineOffsets (its.firstGap.getD [])) (gapHasEmptyLineOffsets cg) [] [])
+      | _ => .error .value
+  | .app f cs g a =>
+    match f.parse with
+    | .error e => .error e
+    | .ok fe =>
+      match a.parse with
+      | .error e => .error e
+      | .ok ae => .ok (appFromCst fe ae cs g)
 /-- the loop of `parse_delimited_sequence` -/
 def Items.parseSeq : Items → Mode → SeqSt → Except Err SeqSt
   | .nil, _, st => .ok st
@@ -224,6 +307,8 @@ def Items.parseSeq : Items → Mode → SeqSt → Except Err SeqSt
       let before := pushGap st g
       match m with
       | .file =>   -- parse_item of NixSourceCode.from_cst: expression.before = before + expression.before
+        rest.parseSeq m { items := st.items ++ [e.setBefore (before ++ e.before)], before := [], prev := .item }
+      | .paren =>  -- parse_item of Parenthesis.from_cst: value.before = before_trivia + value.before
         rest.parseSeq m { items := st.items ++ [e.setBefore (before ++ e.before)], before := [], prev := .item }
       | .list =>   -- parse_item of process_list: child_expression.before = before
         rest.parseSeq m { items := st.items ++ [e.setBefore before], before := [], prev := .item }
